@@ -48,8 +48,8 @@ func init() {
 				if !ok || prog.SelField(info, sel) != parents || derefObj(info, sel.X) != split {
 					return false
 				}
-				lit, ok := ast.Unparen(call.Args[1]).(*ast.FuncLit)
-				return ok && exprUsesField(info, lit.Body, known)
+				lit := funcValueLit(r.P, info, call.Args[1]) // a literal or an extracted predicate method
+				return lit != nil && exprUsesField(info, lit.Body, known)
 			}
 			inlineParentTest := false
 			inspect(loop.Body, func(nd ast.Node) bool {
